@@ -427,7 +427,7 @@ def call_impl(fn, *args, limit=10, **kw):
             signal.alarm(max(1, int(prev - (time.time() - t_in))))
 
 
-def guard_run(unit, case, limit=40):
+def guard_run(unit, case, limit=90):
     """unit.run(case) under a wall-clock limit: a unit that calls the implementation without call_impl must not hang the check when
     a change makes the implementation loop forever. A timed-out case is recorded as the outcome ['exc', 'Timeout'] (a mismatch for
     the model, which never times out); more than MAX_TIMEOUTS of them abort the unit (TooManyTimeouts -> the unit is reported broken)."""
